@@ -121,26 +121,60 @@ var (
 			return errors.New("nil token entry")
 		}
 
-		storage := ts.core.router.MatchingStorageByAPIPath(ctx, routing.MountPathCubbyhole)
-		if storage == nil {
-			return errors.New("no cubby mount entry")
+		tokenNS, err := namespace.FromContext(ctx)
+		if err != nil {
+			return err
 		}
-		view := storage.(barrier.View)
 
-		switch {
-		case te.NamespaceID == namespace.RootNamespaceID && !IsServiceToken(te.ID):
-			saltedID, err := ts.SaltID(ctx, te.ID)
-			if err != nil {
-				return err
-			}
-			return ts.cubbyholeBackend.revoke(ctx, view, salt.SaltID(ts.cubbyholeBackend.saltUUID, saltedID, salt.SHA1Hash))
-
-		default:
-			if te.CubbyholeID == "" {
-				return errors.New("missing cubbyhole ID while destroying")
-			}
-			return ts.cubbyholeBackend.revoke(ctx, view, te.CubbyholeID)
+		// The router lets a token use the cubbyhole mount of its own namespace
+		// and of every namespace below it, so all of them have to be cleared.
+		namespaces, err := ts.core.namespaceStore.ListNamespaces(ctx, ListNamespaceOpts{
+			Recursive:     true,
+			IncludeParent: true,
+		})
+		if err != nil {
+			return err
 		}
+
+		for _, ns := range namespaces {
+			nsCtx := namespace.ContextWithNamespace(ctx, ns)
+
+			mountEntry := ts.core.router.MatchingMountEntry(nsCtx, routing.MountPathCubbyhole)
+			storage := ts.core.router.MatchingStorageByAPIPath(nsCtx, routing.MountPathCubbyhole)
+			if mountEntry == nil || mountEntry.NamespaceID != ns.ID || storage == nil {
+				if ns.ID != tokenNS.ID {
+					// The namespace is being created or deleted
+					continue
+				}
+				return errors.New("no cubby mount entry")
+			}
+			view := storage.(barrier.View)
+
+			switch {
+			case te.NamespaceID == namespace.RootNamespaceID && !IsServiceToken(te.ID):
+				// This has to mirror the double-salting done by the router:
+				// token store salt and cubbyhole mount of the namespace the
+				// cubbyhole was used in.
+				s, err := ts.Salt(nsCtx)
+				if err != nil {
+					return err
+				}
+				err = ts.cubbyholeBackend.revoke(nsCtx, view, salt.SaltID(mountEntry.UUID, s.SaltID(te.ID), salt.SHA1Hash))
+				if err != nil {
+					return err
+				}
+
+			default:
+				if te.CubbyholeID == "" {
+					return errors.New("missing cubbyhole ID while destroying")
+				}
+				if err := ts.cubbyholeBackend.revoke(nsCtx, view, te.CubbyholeID); err != nil {
+					return err
+				}
+			}
+		}
+
+		return nil
 	}
 )
 
